@@ -413,8 +413,9 @@ line:
 	} else if (strcmp(name, "error") == 0) {
 		error(&tok.loc, "#error directive is not implemented");
 	} else if (strcmp(name, "pragma") == 0) {
+		/* skip the line without macro expansion */
 		while (tok.kind != TNEWLINE && tok.kind != TEOF)
-			next();
+			scan(&tok);
 	} else {
 		error(&tok.loc, "invalid preprocessor directive #%s", name);
 	}
